@@ -2,6 +2,7 @@
 from engine import *
 import obligations
 import provenance
+import guards
 import mutations
 import accessors
 import tlv
@@ -412,3 +413,4 @@ def r06F(F):
 	import C11
 	return C11.r11F(F, '06.F')
 RULES.append(('06.F', 'filter_block remembers every transaction it reports, so that a justice transaction spending an in-block HTLC transaction of a revoked commitment is seen (11.F under C06)', r06F))
+RULES.append(('06.G', 'guard census: no reviewed call of a workspace function and no reviewed mutation of a stored collection gained a controlling branch condition (an added `&& cond`, early return / continue, more specific match arm in front of an act); counts per call site, name free (rules/guards.py)', lambda F: guards.for_property(F, 'C06', '06.G')))
